@@ -76,8 +76,10 @@ type Controller struct {
 type Field struct {
 	GoName   string  `json:"go"`
 	JSON     string  `json:"json"`
-	Type     TypeRef `json:"type"`
+	Type     TypeRef `json:"type"` // Kind "time": time.Time (struct fields only)
 	Validate string  `json:"validate,omitempty"`
+	// Embedded: an anonymous field of struct type; its fields are promoted (and flattened in JSON)
+	Embedded bool `json:"embedded,omitempty"`
 }
 
 type Struct struct {
@@ -87,6 +89,8 @@ type Struct struct {
 	Fields  []Field `json:"fields"`
 	IsError bool    `json:"is_error,omitempty"` // embeds `error`
 	Desc    string  `json:"desc,omitempty"`
+	// EmbedDepth: 0 = embeds nothing, n = embeds a struct of depth n-1 (own fields are then named G.., H..)
+	EmbedDepth int `json:"embed_depth,omitempty"`
 }
 
 type Enum struct {
@@ -298,6 +302,8 @@ func (t TypeRef) GoString(fromPkg string) string {
 	switch t.Kind {
 	case "prim":
 		return s + t.Prim
+	case "time":
+		return s + "time.Time"
 	default:
 		if t.Pkg != "" && t.Pkg != fromPkg {
 			return s + PkgName(t.Pkg) + "." + t.Name
